@@ -450,6 +450,8 @@ def execute(case, ctx):
             fam = fams[op["which"] % len(fams)]
             cls = CNF if op["klass"] == "CNF" else OPB
             lst = pool.items[lidx[1]][1]       # the charge vector
+            if op["k"] == 3 and fam == "tseitin":
+                lst = None                     # the default: one odd vertex
             what = "family:" + fam
             with installed(SimRandom(7)):
                 r = call(_call_family, fam, G, cls, op, pool, gidx, lst)
@@ -467,7 +469,8 @@ def execute(case, ctx):
                     # (cast to boolean, one per vertex, the rest ignored)
                     nv = G.number_of_nodes() if hasattr(G, "number_of_nodes") \
                         else G.number_of_vertices()
-                    eff = [bool(c) for c in lst][:nv]
+                    eff = [bool(c) for c in (lst if lst is not None else
+                                             [True])][:nv]
                     descr = r[1].header.get("description", "")
                     want = "odd" if sum(eff) % 2 else "even"
                     other = "even" if want == "odd" else "odd"
